@@ -6,93 +6,201 @@ package dir
 // This file holds only comments and is compiled only with -tags verif.
 //
 // The file system is the package-level ghost state of /verif/libspec/os_fs.spec (fsExists, fsIsLink, fsLink,
-// fsIsDir, fsSrc, fsComplete, fsOK; paths are clean spellings, pchild/panc/pjoin/pdir/pbase the lexical path
-// functions).
+// fsIsDir, fsSrc, fsComplete, fsOK; entries are keyed by the clean spelling of their path; pchild/panc/pjoin/pdir/
+// pbase/pcl/pabs are the lexical path functions). The text of a symbolic link is NOT a path of the model: the entry
+// a link l leads to is presolve(l, fsLink[l]) (relative text: resolved from the directory of the link).
+//
+// Property C18, sentence by sentence:
+//   S1 at every instant (also when the process dies between two file-system steps) the target is absent (before the
+//      first successful write) or resolves to a directory holding exactly the file set of one Write:
+//      requires fsCI + [C18.crash.*] after every file-system call + [C18.present.*] (once present, never absent
+//      again, and always the old or the new version, nothing else) + [C18.complete.*] (what "complete" means).
+//   S2 after any crash a fresh Dir can Write, after which the target shows the new set:
+//      [C18.recover] from every state that [C18.cr.*] prove reachable + [C18.post.target] [C18.post.content.*].
+//   S3 without crashes only the current version remains: [C18.post.oldgone] [C18.post.nolitter] [C18.post.nodotnew]
+//      and for a Write that fails [C18.err.target] [C18.err.cleanup].
 
-// fsCI: the crash invariant. The target is absent, or it is a symbolic link to a version directory next to it
-// (a child of the same parent b, not named "<target>.new") that exists, is a real directory and holds exactly the file set of one Write.
-//@ pure func fsCI(ex [string]bool, isl [string]bool, lk [string]string, isd [string]bool, comp [string]bool, t string, b string) bool = !ex[t] || (isl[t] && !isd[t] && pchild(lk[t], b) && !isDotNew(t, lk[t]) && ex[lk[t]] && isd[lk[t]] && !isl[lk[t]] && comp[lk[t]])
+// fsVer: r is a version directory of target t in its parent b: an entry of b named "<something>-<name of t>", neither
+// t itself nor its ".new" companion, that exists, is a real directory and holds exactly the file set of one Write.
+//@ pure func fsVer(ex [string]bool, isl [string]bool, isd [string]bool, comp [string]bool, r string, t string, b string) bool = pchild(r, b) && r != t && r != pdotnew(t) && isVerName(pbase(r), pbase(t)) && ex[r] && isd[r] && !isl[r] && comp[r]
+
+// fsKeep: r is an untouched real directory flagged complete
+//@ pure func fsKeep(ex [string]bool, isl [string]bool, isd [string]bool, comp [string]bool, r string) bool = ex[r] && isd[r] && !isl[r] && comp[r]
+
+// fsCI: the crash invariant. The target is absent, or it is a symbolic link that resolves (from its own directory when
+// the text is relative; an absolute text, as written by earlier versions of this package, is a clean path) to a version
+// directory next to it.
+//@ pure func fsCI(ex [string]bool, isl [string]bool, lk [string]string, isd [string]bool, comp [string]bool, t string, b string) bool = !ex[t] || (isl[t] && !isd[t] && (pabs(lk[t]) ==> pclean(lk[t])) && fsVer(ex, isl, isd, comp, presolve(t, lk[t]), t, b))
 
 // fsCRx: what a crash-reachable state satisfies besides fsCI: nothing but directories on the way to the parent
-// directory, and a left-over "<target>.new" can only be a symbolic link.
-//@ pure func fsCRx(ex [string]bool, isl [string]bool, isd [string]bool, t string, b string) bool = (forall q string :: (panc(q, b) && ex[q]) ==> isd[q]) && (forall s string :: (isDotNew(t, s) && ex[s]) ==> (isl[s] && !isd[s]))
+// directory (HYPOTHESIS of recoverability, listed in os_fs.spec: no ancestor of the target is a symbolic link or a
+// file), and a left-over "<target>.new" can only be a symbolic link.
+//@ pure func fsCRx(ex [string]bool, isl [string]bool, isd [string]bool, t string, b string) bool = (forall q string :: (panc(q, b) && ex[q]) ==> isd[q]) && (ex[pdotnew(t)] ==> (isl[pdotnew(t)] && !isd[pdotnew(t)]))
+
+// okName: the test Write applies to every file name
+//@ pure func okName(k string) bool = k != "" && k != "." && k != ".." && pbase(k) == k
 
 //@ type Dir
 //@   invariant [layout] pclean(self.target) && pclean(self.base) && pchild(self.target, self.base) && self.targetDir == pbase(self.target) && psimple(self.targetDir)
 //@   invariant [log] self.log != nil
-// [prev]: the version directory this Dir installed last (pure path facts: they also hold after a failed Write).
-// [live]: ... and the target still points to it. Holds after every successful Write; lost when a Write fails
-// after its Rename (RemoveAll of the previous version failed): the target then points to the new directory
-// while d.prev was not advanced. Write does not need [live].
-//@   invariant [prev] self.prev != nil ==> (pchild(*self.prev, self.base) && pclean(*self.prev) && *self.prev != self.target)
-//@   invariant [live] self.prev != nil ==> (fsExists[self.target] && fsIsLink[self.target] && fsLink[self.target] == *self.prev)
+// [prev]: the version directory this Dir installed or adopted last. [live]: ... and the target resolves to it. Both hold
+// between any two calls (single writer): Write advances d.prev as soon as the rename made the new version live.
+//@   invariant [prev] self.prev != nil ==> (allocated(self.prev) && pchild(*self.prev, self.base) && pclean(*self.prev) && *self.prev != self.target)
+//@   invariant [live] self.prev != nil ==> (fsExists[self.target] && fsIsLink[self.target] && presolve(self.target, fsLink[self.target]) == *self.prev)
 
+// The target may be spelled in any way (relative, absolute, trailing separator, "."/".." elements): New cleans it. It
+// must name an entry, i.e. not clean to ".", ".." (or a path ending in it) or "/". (The second disjunct of the
+// precondition is the first one for a clean target - path law pcl(p) == p - spelled out for callers that have no path
+// law in scope.)
 //@ func New
 //@   tags C18 C07
-//@   requires opts.Log != nil && pclean(opts.Target) && psimple(pbase(opts.Target))
+//@   requires opts.Log != nil && (psimple(pbase(pcl(opts.Target))) || (pclean(opts.Target) && psimple(pbase(opts.Target))))
 //@   modifies nothing
-//@   ensures fresh(result) && inv(result) && result.prev == nil && result.target == opts.Target
+//@   ensures [C18.new.inv] fresh(result) && inv(result) && result.prev == nil
+//@   ensures [C18.new.clean] result.target == pcl(opts.Target)
+
+// The deferred cleanup of Write: removes the version directory of a write that did not go live, and nothing else.
+// (It does not see d: that it never touches the live version is proved in Write, [C18.crash.cleanup] and
+// [C18.present.cleanup], from this contract, which is os.RemoveAll's when !live.)
+//@ func (*Dir).Write$1
+//@   tags C18 C07
+//@   requires !live ==> pclean(newDir)
+//@   modifies fsExists, fsIsDir, fsIsLink, fsComplete
+//@   ensures [C18.cleanup.notlive] live ==> (fsExists == old(fsExists) && fsIsDir == old(fsIsDir) && fsIsLink == old(fsIsLink) && fsComplete == old(fsComplete))
+//@   ensures [C18.cleanup.scope] forall q string :: !panc(newDir, q) ==> (fsExists[q] == old(fsExists[q]) && fsIsDir[q] == old(fsIsDir[q]) && fsIsLink[q] == old(fsIsLink[q]))
+//@   ensures [C18.cleanup.flags] forall q string :: (!panc(newDir, q) && q != pdir(newDir)) ==> fsComplete[q] == old(fsComplete[q])
+//@   ensures [C18.cleanup.flags2] forall q string :: fsComplete[q] ==> old(fsComplete[q])
+//@   ensures [C18.cleanup.nonew] forall q string :: fsExists[q] ==> (old(fsExists[q]) && fsIsDir[q] == old(fsIsDir[q]) && fsIsLink[q] == old(fsIsLink[q]))
+//@   ensures [C18.cleanup.done] (!live && fsOK) ==> (forall q string :: panc(newDir, q) ==> !fsExists[q])
 
 //@ func (*Dir).Write
 //@   tags C18 C07
-//@   ghost visited [string]bool
-//@   ghost tnew string
-//@   requires d != nil && invexcept(d, "live")
-//@   requires forall k string :: haskey(files, k) ==> psimple(k)
+//@   ghost gnew string
+//@   ghost gstamp int
+//@   ghost glive string
+//@   requires d != nil && inv(d)
 //@   requires fsCI(fsExists, fsIsLink, fsLink, fsIsDir, fsComplete, d.target, d.base)
 //@   modifies fsExists, fsIsLink, fsLink, fsIsDir, fsSrc, fsComplete, d.prev
-//@   ensures invexcept(d, "live")
-//@   ensures [C18.post.inv] result == nil ==> inv(d)
+//@   ensures [C18.post.inv] inv(d)
 //@   ensures [C18.post.ci] fsCI(fsExists, fsIsLink, fsLink, fsIsDir, fsComplete, d.target, d.base)
-//@   ensures [C18.post.target] result == nil ==> (d.prev != nil && fsExists[d.target] && fsIsLink[d.target] && fsLink[d.target] == *d.prev && fsIsDir[*d.prev] && fsComplete[*d.prev])
-//@   ensures [C18.post.oldgone] (result == nil && old(d.prev) != nil) ==> !fsExists[old(*d.prev)]
-//@   ensures [C18.recover] (fsOK && old(d.prev) == nil && old(fsCRx(fsExists, fsIsLink, fsIsDir, d.target, d.base))) ==> result == nil
+// S1, presence: a target that resolved before the call resolves after it, whatever the outcome
+//@   ensures [C18.post.present] old(fsExists[d.target]) ==> fsExists[d.target]
+// S2/S3, success: the target resolves to a version directory that did not exist before and holds exactly `files`
+//@   ensures [C18.post.target] result == nil ==> (d.prev != nil && fsExists[d.target] && fsIsLink[d.target] && presolve(d.target, fsLink[d.target]) == *d.prev && fsIsDir[*d.prev] && fsComplete[*d.prev] && !old(fsExists)[*d.prev])
+//@   ensures [C18.post.content.all] result == nil ==> (forall k string :: haskey(files, k) ==> (fsExists[pjoin(*d.prev, k)] && !fsIsDir[pjoin(*d.prev, k)] && !fsIsLink[pjoin(*d.prev, k)] && fsSrc[pjoin(*d.prev, k)] == files[k]))
+//@   ensures [C18.post.content.only] result == nil ==> (forall q string :: (fsExists[q] && pdir(q) == *d.prev && q != *d.prev) ==> haskey(files, pbase(q)))
+//@   ensures [C18.post.names] result == nil ==> (forall k string :: haskey(files, k) ==> psimple(k))
+// S3, success: no ".new" left, nothing new in the parent directory but the target and the new version, and (when
+// the environment did not refuse the removal) the version the target resolved to before is gone with everything in it -
+// for a Dir that installed it itself and for a fresh Dir (restart of the process) alike.
+//@   ensures [C18.post.nodotnew] result == nil ==> !fsExists[pdotnew(d.target)]
+//@   ensures [C18.post.nolitter] result == nil ==> (forall q string :: (pchild(q, d.base) && fsExists[q] && !old(fsExists[q])) ==> (q == d.target || q == *d.prev))
+//@   ensures [C18.post.oldgone] (result == nil && fsOK && old(fsExists[d.target])) ==> (forall q string :: panc(old(presolve(d.target, fsLink[d.target])), q) ==> !fsExists[q])
+// Error return: the target is untouched, and (healthy environment) nothing this call created is left in the parent
+// directory - in particular not its own version directory.
+//@   ensures [C18.err.target] result != nil ==> (fsExists[d.target] == old(fsExists[d.target]) && fsIsLink[d.target] == old(fsIsLink[d.target]) && fsLink[d.target] == old(fsLink[d.target]))
+//@   ensures [C18.err.cleanup] (result != nil && fsOK) ==> (forall q string :: (pchild(q, d.base) && fsExists[q]) ==> old(fsExists[q]))
+// S2: from every crash-reachable state, in a healthy environment, Write succeeds - for any Dir, fresh or not - unless a
+// file name is invalid (okName(k) && k != "/" is psimple(k), path law) or the version name it draws from the clock is
+// taken (os.Mkdir then refuses; no freshness assumption is made anywhere: a collision is an error return like any other,
+// with the target untouched and nothing left behind).
+//@   ensures [C18.recover] (fsOK && old(fsCRx(fsExists, fsIsLink, fsIsDir, d.target, d.base)) && (forall k string :: haskey(files, k) ==> (okName(k) && k != "/")) && !old(fsExists[gnew])) ==> result == nil
 //@   replay template dircrash
 //@   replay val nfiles = len(files)
 //@   replay val hadprev = d.prev != nil
 //
-// The version name: "<UnixNano>-<targetDir>" is a single path component when targetDir is one (fact about
-// fmt.Sprintf with this format), and it is fresh: no entry of that name exists, and it is neither the target
-// nor its ".new" companion, nor the version this Dir installed before (assumption about the clock: UnixNano
-// strictly increases between two Writes of one process and differs from every existing stamp, DESIGN.md C18).
-//@   at call Sprintf#0 ghost visited = noKeys()
-//@   at call Sprintf#0 assume psimple(d.targetDir) ==> psimple(res0)
-//@   at call Join#0 assume !fsExists[res0] && res0 != d.target && !isDotNew(d.target, res0) && (d.prev != nil ==> res0 != *d.prev)
+// ---- the name check (loop 0). rangeseen = keys handed out by this range so far (iteration state kept by the tool:
+// Go's range over a map produces every key exactly once before it ends, a listed assumption of the tool).
+//@   at entry ghost glive = presolve(d.target, fsLink[d.target])
+//@   loop 0 invariant [C18.names.checked] forall k string :: rangeseen[k] ==> okName(k)
+//@   loop 0 invariant fsExists == old(fsExists) && fsIsLink == old(fsIsLink) && fsLink == old(fsLink) && fsIsDir == old(fsIsDir) && fsComplete == old(fsComplete) && d.prev == old(d.prev)
 //
-// Every crash point: after each file-system call the crash invariant holds, and crash-reachability is closed.
-//@   at call MkdirAll assert [C18.crash.mkdir] fsCI(fsExists, fsIsLink, fsLink, fsIsDir, fsComplete, d.target, d.base)
+// ---- the version name. The only assumption is what fmt.Sprintf does with this format: "%d-%s" of n and s is
+// stampName(n, s) (os_fs.spec; a path law says that this is a single component ending in "-"+s when s is one).
+// Nothing is assumed about the number: [C18.name.clock] only pins that the name is the one of the nanosecond clock
+// reading (gstamp) - the hypothesis "version name not taken" of [C18.recover] is a statement about the clock.
+//@   at call UnixNano#0 ghost gstamp = res0
+//@   at call Sprintf#0 assume arg0 == "%d-%s" ==> res0 == stampName(unbox(arg1[0], "int64"), unbox(arg1[1], "string"))
+//@   at call Join#0 ghost gnew = res0
+//@   at call Join#0 assert [C18.name.clock] res0 == pjoin(d.base, stampName(gstamp, d.targetDir))
+//@   at call Join#0 assert [C18.name.shape] pchild(res0, d.base) && pclean(res0) && res0 != d.target && res0 != pdotnew(d.target) && isVerName(pbase(res0), pbase(d.target))
+//
+// ---- every crash point. After each file-system call:
+//   [present] the target entry is the one found at entry until the rename, and the link to the new version after it
+//             (so a target that resolved once never stops resolving, and never shows anything but the old or the new version);
+//   [keep]    the version the target resolves to is still an untouched directory holding one Write's complete set
+//             (glive = the version live at entry);
+//   [crash]   hence the crash invariant holds;
+//   [cr]      crash-reachability is closed.
+// The deferred cleanup (os.RemoveAll of the new version directory when the write did not go live) is a crash point too:
+// the same four at every return, i.e. after the deferred call ran.
+//@   at call MkdirAll assert [C18.present.mkdirall] fsExists[d.target] == old(fsExists[d.target]) && fsIsLink[d.target] == old(fsIsLink[d.target]) && fsLink[d.target] == old(fsLink[d.target])
+//@   at call MkdirAll assert [C18.keep.mkdirall] old(fsExists[d.target]) ==> fsKeep(fsExists, fsIsLink, fsIsDir, fsComplete, glive)
+//@   at call MkdirAll assert [C18.crash.mkdirall] fsCI(fsExists, fsIsLink, fsLink, fsIsDir, fsComplete, d.target, d.base)
+//@   at call MkdirAll assert [C18.cr.mkdirall] old(fsCRx(fsExists, fsIsLink, fsIsDir, d.target, d.base)) ==> fsCRx(fsExists, fsIsLink, fsIsDir, d.target, d.base)
+//@   at every call Mkdir assert [C18.present.mkdir] fsExists[d.target] == old(fsExists[d.target]) && fsIsLink[d.target] == old(fsIsLink[d.target]) && fsLink[d.target] == old(fsLink[d.target])
+//@   at every call Mkdir assert [C18.keep.mkdir] old(fsExists[d.target]) ==> fsKeep(fsExists, fsIsLink, fsIsDir, fsComplete, glive)
+//@   at every call Mkdir assert [C18.crash.mkdir] fsCI(fsExists, fsIsLink, fsLink, fsIsDir, fsComplete, d.target, d.base)
+//@   at every call Mkdir assert [C18.cr.mkdir] old(fsCRx(fsExists, fsIsLink, fsIsDir, d.target, d.base)) ==> fsCRx(fsExists, fsIsLink, fsIsDir, d.target, d.base)
+//@   at call WriteFile assert [C18.present.writefile] fsExists[d.target] == old(fsExists[d.target]) && fsIsLink[d.target] == old(fsIsLink[d.target]) && fsLink[d.target] == old(fsLink[d.target])
+//@   at call WriteFile assert [C18.keep.writefile] old(fsExists[d.target]) ==> fsKeep(fsExists, fsIsLink, fsIsDir, fsComplete, glive)
 //@   at call WriteFile assert [C18.crash.writefile] fsCI(fsExists, fsIsLink, fsLink, fsIsDir, fsComplete, d.target, d.base)
-//@   at call Symlink assert [C18.crash.symlink] fsCI(fsExists, fsIsLink, fsLink, fsIsDir, fsComplete, d.target, d.base)
-//@   at call Rename assert [C18.crash.rename] fsCI(fsExists, fsIsLink, fsLink, fsIsDir, fsComplete, d.target, d.base)
-//@   at call RemoveAll assert [C18.crash.removeall] fsCI(fsExists, fsIsLink, fsLink, fsIsDir, fsComplete, d.target, d.base)
-//@   at call MkdirAll assert [C18.cr.mkdir] old(fsCRx(fsExists, fsIsLink, fsIsDir, d.target, d.base)) ==> fsCRx(fsExists, fsIsLink, fsIsDir, d.target, d.base)
 //@   at call WriteFile assert [C18.cr.writefile] old(fsCRx(fsExists, fsIsLink, fsIsDir, d.target, d.base)) ==> fsCRx(fsExists, fsIsLink, fsIsDir, d.target, d.base)
+//@   at call Readlink assert [C18.present.readlink] fsExists[d.target] == old(fsExists[d.target]) && fsIsLink[d.target] == old(fsIsLink[d.target]) && fsLink[d.target] == old(fsLink[d.target])
+//@   at call Readlink assert [C18.keep.readlink] old(fsExists[d.target]) ==> fsKeep(fsExists, fsIsLink, fsIsDir, fsComplete, glive)
+//@   at call Readlink assert [C18.crash.readlink] fsCI(fsExists, fsIsLink, fsLink, fsIsDir, fsComplete, d.target, d.base)
+//@   at every call Remove assert [C18.present.remove] fsExists[d.target] == old(fsExists[d.target]) && fsIsLink[d.target] == old(fsIsLink[d.target]) && fsLink[d.target] == old(fsLink[d.target])
+//@   at every call Remove assert [C18.keep.remove] old(fsExists[d.target]) ==> fsKeep(fsExists, fsIsLink, fsIsDir, fsComplete, glive)
+//@   at every call Remove assert [C18.crash.remove] fsCI(fsExists, fsIsLink, fsLink, fsIsDir, fsComplete, d.target, d.base)
+//@   at every call Remove assert [C18.cr.remove] old(fsCRx(fsExists, fsIsLink, fsIsDir, d.target, d.base)) ==> fsCRx(fsExists, fsIsLink, fsIsDir, d.target, d.base)
+//@   at call Symlink assert [C18.present.symlink] fsExists[d.target] == old(fsExists[d.target]) && fsIsLink[d.target] == old(fsIsLink[d.target]) && fsLink[d.target] == old(fsLink[d.target])
+//@   at call Symlink assert [C18.keep.symlink] old(fsExists[d.target]) ==> fsKeep(fsExists, fsIsLink, fsIsDir, fsComplete, glive)
+//@   at call Symlink assert [C18.crash.symlink] fsCI(fsExists, fsIsLink, fsLink, fsIsDir, fsComplete, d.target, d.base)
 //@   at call Symlink assert [C18.cr.symlink] old(fsCRx(fsExists, fsIsLink, fsIsDir, d.target, d.base)) ==> fsCRx(fsExists, fsIsLink, fsIsDir, d.target, d.base)
+//@   at call Rename assert [C18.present.rename] res0 != nil ? (fsExists[d.target] == old(fsExists[d.target]) && fsIsLink[d.target] == old(fsIsLink[d.target]) && fsLink[d.target] == old(fsLink[d.target])) : (fsExists[d.target] && fsIsLink[d.target] && presolve(d.target, fsLink[d.target]) == newDir)
+//@   at call Rename assert [C18.keep.rename] res0 != nil ? (old(fsExists[d.target]) ==> fsKeep(fsExists, fsIsLink, fsIsDir, fsComplete, glive)) : fsKeep(fsExists, fsIsLink, fsIsDir, fsComplete, newDir)
+//@   at call Rename assert [C18.crash.rename] fsCI(fsExists, fsIsLink, fsLink, fsIsDir, fsComplete, d.target, d.base)
 //@   at call Rename assert [C18.cr.rename] old(fsCRx(fsExists, fsIsLink, fsIsDir, d.target, d.base)) ==> fsCRx(fsExists, fsIsLink, fsIsDir, d.target, d.base)
+//@   at call RemoveAll assert [C18.present.removeall] fsExists[d.target] && fsIsLink[d.target] && presolve(d.target, fsLink[d.target]) == newDir
+//@   at call RemoveAll assert [C18.keep.removeall] fsKeep(fsExists, fsIsLink, fsIsDir, fsComplete, newDir)
+//@   at call RemoveAll assert [C18.crash.removeall] fsCI(fsExists, fsIsLink, fsLink, fsIsDir, fsComplete, d.target, d.base)
 //@   at call RemoveAll assert [C18.cr.removeall] old(fsCRx(fsExists, fsIsLink, fsIsDir, d.target, d.base)) ==> fsCRx(fsExists, fsIsLink, fsIsDir, d.target, d.base)
+//@   at every return assert [C18.present.cleanup] result != nil ? (fsExists[d.target] == old(fsExists[d.target]) && fsIsLink[d.target] == old(fsIsLink[d.target]) && fsLink[d.target] == old(fsLink[d.target])) : (fsExists[d.target] && fsIsLink[d.target] && presolve(d.target, fsLink[d.target]) == *d.prev)
+//@   at every return assert [C18.keep.cleanup] result != nil ? (old(fsExists[d.target]) ==> fsKeep(fsExists, fsIsLink, fsIsDir, fsComplete, glive)) : fsKeep(fsExists, fsIsLink, fsIsDir, fsComplete, *d.prev)
+//@   at every return assert [C18.crash.cleanup] fsCI(fsExists, fsIsLink, fsLink, fsIsDir, fsComplete, d.target, d.base)
+//@   at every return assert [C18.cr.cleanup] old(fsCRx(fsExists, fsIsLink, fsIsDir, d.target, d.base)) ==> fsCRx(fsExists, fsIsLink, fsIsDir, d.target, d.base)
 //
-// The loop over the file map. visited = keys handed out by range so far.
-//@   at next#0 ghost visited = res0 ? update(visited, res1, true) : visited
-//@   loop 0 invariant fsCI(fsExists, fsIsLink, fsLink, fsIsDir, fsComplete, d.target, d.base)
-//@   loop 0 invariant old(fsCRx(fsExists, fsIsLink, fsIsDir, d.target, d.base)) ==> fsCRx(fsExists, fsIsLink, fsIsDir, d.target, d.base)
-//@   loop 0 invariant fsExists[newDir] && fsIsDir[newDir] && !fsIsLink[newDir] && fsExists[d.base] && fsIsDir[d.base]
-//@   loop 0 invariant fsLink == old(fsLink) && !fsComplete[newDir]
-//@   loop 0 invariant forall q string :: (fsExists[q] && pdir(q) == newDir && q != newDir) ==> visited[pbase(q)]
-//@   loop 0 invariant forall k string :: visited[k] ==> (haskey(files, k) && fsExists[pjoin(newDir, k)] && !fsIsDir[pjoin(newDir, k)] && !fsIsLink[pjoin(newDir, k)] && fsSrc[pjoin(newDir, k)] == files[k])
+// ---- the loop over the file map (loop 1). rangeseen1 = keys handed out by this range so far.
+//@   loop 1 invariant fsCI(fsExists, fsIsLink, fsLink, fsIsDir, fsComplete, d.target, d.base)
+//@   loop 1 invariant old(fsCRx(fsExists, fsIsLink, fsIsDir, d.target, d.base)) ==> fsCRx(fsExists, fsIsLink, fsIsDir, d.target, d.base)
+//@   loop 1 invariant !live && gnew == newDir && d.prev == old(d.prev) && (forall k string :: haskey(files, k) ==> okName(k))
+//@   loop 1 invariant pchild(newDir, d.base) && pclean(newDir) && newDir != d.target && newDir != pdotnew(d.target) && isVerName(pbase(newDir), pbase(d.target))
+//@   loop 1 invariant [C18.name.fresh] !old(fsExists[gnew])
+//@   loop 1 invariant [C18.name.notlive] old(fsExists[d.target]) ==> (glive != newDir && !panc(newDir, glive) && !panc(newDir, d.target) && glive != d.base && fsKeep(fsExists, fsIsLink, fsIsDir, fsComplete, glive))
+//@   loop 1 invariant fsExists[newDir] && fsIsDir[newDir] && !fsIsLink[newDir] && fsExists[d.base] && fsIsDir[d.base]
+//@   loop 1 invariant fsLink == old(fsLink) && fsExists[d.target] == old(fsExists[d.target]) && fsIsLink[d.target] == old(fsIsLink[d.target]) && !fsComplete[newDir]
+//@   loop 1 invariant forall q string :: (pchild(q, d.base) && fsExists[q] && !old(fsExists[q])) ==> q == newDir
+//@   loop 1 invariant forall q string :: (pchild(q, d.base) && old(fsExists[q])) ==> fsExists[q]
+//@   loop 1 invariant [C18.complete.nothingelse] forall q string :: (fsExists[q] && pdir(q) == newDir && q != newDir) ==> rangeseen1[pbase(q)]
+//@   loop 1 invariant [C18.complete.sofar] forall k string :: rangeseen1[k] ==> (haskey(files, k) && psimple(k) && fsExists[pjoin(newDir, k)] && !fsIsDir[pjoin(newDir, k)] && !fsIsLink[pjoin(newDir, k)] && fsSrc[pjoin(newDir, k)] == files[k])
 //
-// Go's range over a map visits every key before it ends (the engine models each iteration as "some key of
-// the map"; that the enumeration is complete is this listed assumption).
-//@   at next#0 assume !res0 ==> (forall k string :: haskey(files, k) ==> visited[k])
-//@   at before call Remove#0 assert [C18.complete.all] forall k string :: haskey(files, k) ==> (fsExists[pjoin(newDir, k)] && !fsIsDir[pjoin(newDir, k)] && !fsIsLink[pjoin(newDir, k)] && fsSrc[pjoin(newDir, k)] == files[k])
-//@   at before call Remove#0 assert [C18.complete.only] forall q string :: (fsExists[q] && pdir(q) == newDir && q != newDir) ==> haskey(files, pbase(q))
-//@   at before call Remove#0 ghost fsComplete = update(fsComplete, newDir, true)
+// ---- adoption (first Write of a Dir): what is adopted is the version the target resolves to, and under the crash
+// invariant the checks on its place and name never turn it down
+//@   at call HasSuffix#0 assert [C18.adopt.live] cur == presolve(d.target, fsLink[d.target]) && isVerName(arg0, d.targetDir)
+//@   at call HasSuffix#0 assert [C18.adopt.pattern] res0
 //
-// The two spellings of target + ".new".
-//@   at before call Remove#0 ghost tnew = arg0
-//@   at before call Remove#0 assert isDotNew(d.target, tnew)
-//@   at call Remove assert [C18.crash.remove] fsCI(fsExists, fsIsLink, fsLink, fsIsDir, fsComplete, d.target, d.base)
-//@   at call Remove assert [C18.cr.remove] old(fsCRx(fsExists, fsIsLink, fsIsDir, d.target, d.base)) ==> fsCRx(fsExists, fsIsLink, fsIsDir, d.target, d.base)
-//@   at before call Symlink#0 assert len(arg1) == len(tnew) && (forall i :: arg1[i] == tnew[i])
-//@   at before call Symlink#0 assert arg1 == tnew
-//@   at before call Rename#0 assert len(arg0) == len(tnew) && (forall i :: arg0[i] == tnew[i])
-//@   at before call Rename#0 assert arg0 == tnew
+// ---- the new version is complete: exactly the keys of `files`, each with its bytes
+//@   at before call Symlink#0 assert [C18.complete.all] forall k string :: haskey(files, k) ==> (psimple(k) && fsExists[pjoin(newDir, k)] && !fsIsDir[pjoin(newDir, k)] && !fsIsLink[pjoin(newDir, k)] && fsSrc[pjoin(newDir, k)] == files[k])
+//@   at before call Symlink#0 assert [C18.complete.only] forall q string :: (fsExists[q] && pdir(q) == newDir && q != newDir) ==> haskey(files, pbase(q))
+//@   at before call Symlink#0 ghost fsComplete = update(fsComplete, newDir, true)
+//
+// ---- the three spellings of target + ".new": each is pdotnew(target)
+//@   at before call Remove#0 assert [C18.dotnew.remove] isDotNew(d.target, arg0)
+//@   at before call Remove#0 assert arg0 == pdotnew(d.target)
+// ---- the link text: a relative name, which resolves from the directory of the link (= of the target) to the new version
+//@   at before call Symlink#0 assert [C18.link.resolves] presolve(d.target, arg0) == newDir
+//@   at call Symlink#0 assert res0 == nil ==> (fsExists[pdotnew(d.target)] && fsIsLink[pdotnew(d.target)] && fsLink[pdotnew(d.target)] == pbase(newDir))
+//@   at before call Symlink#0 assert [C18.dotnew.symlink] isDotNew(d.target, arg1)
+//@   at before call Symlink#0 assert arg1 == pdotnew(d.target)
+//@   at before call Rename#0 assert [C18.dotnew.rename] isDotNew(d.target, arg0)
+//@   at before call Rename#0 assert arg0 == pdotnew(d.target)
